@@ -1,5 +1,5 @@
 """Prototype of the model's signature rules, compared byte-for-byte with the real analysis."""
-import sys, inspect; sys.path.insert(0, "/tmp/probe/pk")
+import sys, inspect; import os; sys.path.insert(0, os.path.dirname(os.path.abspath(__file__)))
 import dds
 from dds.store import MemoryStore
 from dds.fun_args import dds_hash as H, dds_hash_commut as X
